@@ -98,6 +98,7 @@ def conditions(tier):
     out.append(_mk("kdtree", (3, 2), 1, "ACY"))
     out.append(_mk("kdtree", (3, 2), 2, "AY"))
     out.append(_mk("kdtree", (2, 1), 3, "AY"))
+    out.append(_mk("kdtree", (3, 3), 3, "AY"))      # composition vectors exactly on the ball boundary: delta = (+3, -3)
     out.append(_mk("kdtree", (2, 2), 1, "AC", compression=2))
     out.append(_mk("kdtree", (2, 2), 2, "ACD", compression=3))
     if tier == "thorough":
